@@ -31,7 +31,9 @@ CHECKS = {
             "through the generator with validation off and on (capability sets all/none/"
             "default); rules: front end rejects => ParseError with the identical diagnostic; "
             "validator rejects => ValidationError; no panic on those; sources that pass give "
-            "identical outcomes with validation on. Thorough adds an AddressSanitizer build.",
+            "identical outcomes with validation on (random derive switches per mutant, random "
+    "capability subsets, and a sweep of every single-capability / all-minus-one set over the "
+    "corpus). Thorough: 8M mutants, 400k in an AddressSanitizer build, 20k under memcheck.",
             "naga called directly on the same text is the reference; panics that naga itself "
             "raises are recorded as findings against the dependency.",
             "DESIGN.md §8 C17"),
@@ -45,8 +47,9 @@ CHECKS["C19"] = (
     "SIGKILL/SIGTERM before/after reading, partial output then killed/failed, garbage + failure, "
     "reads 1 KiB then fails, empty output with exit 0 (with and without reading), slow but "
     "correct} x {output below/above the 64 KiB pipe buffer} x {failpoint delay 0/50 ms} is run "
-    "in its own child; the real formatter is run over the whole corpus; every returned text must "
-    "be Ok and canonically equal to the formatter-off program; no panic; no blocked child.",
+    "in its own child; the real formatter is run over the whole corpus and over five derive "
+    "option sets; every returned text must be Ok and canonically (token sequence) equal to the "
+    "formatter-off program; no panic; no blocked child.",
     "canonical form = syn::parse_file -> prettyplease::unparse; the fault list is the "
     "property's own plus close variants; exit 0 with truncated output is undetectable and out "
     "of scope.",
@@ -56,11 +59,14 @@ CHECKS["C20"] = (
     "runtime monitoring of cost: hook step counters + thread CPU time per call in child "
     "processes under RLIMIT_CPU, on shader families of growing call depth / type nesting, "
     "bounded by a polynomial in the naga IR size",
-    "Call chains and diamonds (value and void calls, width 2-4, depth up to 64), calls buried in "
-    "if/loop/continuing/switch, several entry points over one deep graph, fan-out to shared "
-    "helpers, nested struct towers (arity 2/3/8, with arrays), wide shaders: each generated in "
-    "a child under RLIMIT_CPU=10 s. Oracle: hook steps <= 8*N^2 (N = naga IR size), CPU <= 2 s "
-    "for <= 400 lines, fitted growth exponent of steps vs N <= 2.5 per family.",
+    "30 families of growing size: call chains and diamonds (value and void calls, width 2-4, "
+    "depth up to 64), calls buried in if/loop/continuing/switch, several entry points over one "
+    "deep graph, fan-out, many call sites, struct towers (arity 2/3/8, with arrays), let-chain "
+    "DAGs (plain and as call argument), control flow nested up to 24 deep (multi-selector "
+    "switch, if/else, loop, continuing, block), long bodies, wide shaders, a formatter-on family "
+    "above the pipe buffer: each generated in a child under RLIMIT_CPU=10 s and RLIMIT_AS=6 GiB. "
+    "Oracle: hook steps <= 8*N^2 (N = naga IR size), CPU <= 2 s for <= 400 lines, no memory "
+    "blow-up, no blocked child, fitted growth exponent of steps vs N <= 2.5 per family.",
     "bound constants are ours (far above a linear walk); shapes are sampled, not all call graphs.",
     "DESIGN.md §8 C20")
 CHECKS["C18"] = (
@@ -75,7 +81,10 @@ CHECKS["C18"] = (
     "byte-identical. One process runs under strace: between the driver's marker syscalls the "
     "calling thread may only use memory-management/futex/getrandom/clock syscalls, plus the "
     "pipe/spawn/wait protocol (own descriptors only, openat only of /dev/null, exec only of "
-    "rustfmt) when the formatter is on. Thorough: TSan build x5 runs, Miri with 4 seeds.",
+    "rustfmt) when the formatter is on. Also: a 16-thread stress run on shaders with 40-120 "
+    "deep call chains, formatter-on outputs above 64 KiB on 6 threads and under strace, a shader "
+    "with three push constants, and a correct-but-slow formatter (bytes must not depend on "
+    "speed). Thorough: TSan build x5 runs, Miri with 4 seeds.",
     "environment reads are invisible to strace (covered differentially); byte identity with "
     "rustfmt on assumes no rustfmt.toml in the working directory.",
     "DESIGN.md §8 C18")
